@@ -1,6 +1,229 @@
-From Coq Require Import ZArith List.
-From PAFC05 Require Import Model Proofs.
+(* C05 property theorems: statements only, each closed by `exact`.
+
+   Vocabulary (Model.v / Proofs1.v / Proofs2.v):
+     faithful V prior L nonneg s  :=  s_ll s = L (s_vec s) /\ s_lp s = prior (s_vec s) /\ nonneg (s_w s)
+                                     -- the sample carries the likelihood and prior of its own parameters
+     s_vec s                      :=  the parameter values of the sample's kwargs, in column order
+     rows_ok paths rows           :=  every parameter row has one value per column
+     mcmc_contract / post_contract / logl_contract / pyswarms_contract : what the third-party sampler
+                                     guarantees about its own arrays (hypotheses, not verified)
+   All theorems quantify over every number type with exact arithmetic ((a + b) - b = a). *)
+From Coq Require Import ZArith List Sorting.Sorted.
+From PAFC05 Require Import Model Proofs1 Proofs2 Proofs3 Proofs4.
 Import ListNotations.
 
-Theorem C05_placeholder : forall V paths (lls lps ws : list V), from_lists V paths [] lls lps ws = [].
-Proof. exact from_lists_nil_rows. Qed.
+(* ---------- Sample.from_lists: the i-th sample is the i-th entry of every list ---------- *)
+Theorem C05_from_lists_pairing :
+  forall (V : Type) (prior L : list V -> V) (nonneg : V -> Prop) (paths : list path) (rows : list (list V))
+         (lls lps ws : list V),
+    rows_ok V paths rows ->
+    zip_all (fun r l => l = L r) rows lls ->
+    zip_all (fun r p => p = prior r) rows lps ->
+    Forall nonneg ws ->
+    Forall (faithful V prior L nonneg) (from_lists V paths rows lls lps ws).
+Proof. exact from_lists_faithful. Qed.
+
+Theorem C05_from_lists_complete :
+  forall (V : Type) (paths : list path) (rows : list (list V)) (lls lps ws : list V),
+    rows_ok V paths rows ->
+    length lls = length rows -> length lps = length rows -> length ws = length rows ->
+    map (s_vec V) (from_lists V paths rows lls lps ws) = rows.
+Proof. exact from_lists_rows_all. Qed.
+
+(* log_posterior is log_likelihood + log_prior (Sample.log_posterior) *)
+Theorem C05_posterior :
+  forall (V : Type) (add : V -> V -> V) (s : sample V), s_post V add s = add (s_ll s) (s_lp s).
+Proof. exact post_def. Qed.
+
+(* ---------- nested samplers ---------- *)
+Theorem C05_dynesty_pairing :
+  forall (V : Type) (sub : V -> V -> V) (prior : list V -> V) (wexp : V -> V) (L : list V -> V) (nonneg : V -> Prop),
+    (forall x : V, nonneg (wexp x)) ->
+    forall (paths : list path) (rows : list (list V)) (logl logwt logz : list V) (out : list (sample V)),
+      rows_ok V paths rows ->
+      logl_contract L rows logl ->
+      dynesty_convert V sub prior wexp paths rows logl logwt logz = Some out ->
+      Forall (faithful V prior L nonneg) out /\ (length logwt = length rows -> map (s_vec V) out = rows).
+Proof. exact dynesty_pairing. Qed.
+
+Theorem C05_nautilus_pairing :
+  forall (V : Type) (prior : list V -> V) (wexp : V -> V) (L : list V -> V) (nonneg : V -> Prop),
+    (forall x : V, nonneg (wexp x)) ->
+    forall (paths : list path) (rows : list (list V)) (logl logw : list V) (out : list (sample V)),
+      rows_ok V paths rows ->
+      logl_contract L rows logl ->
+      nautilus_convert V prior wexp paths rows logl logw = Some out ->
+      Forall (faithful V prior L nonneg) out /\ (length logw = length rows -> map (s_vec V) out = rows).
+Proof. exact nautilus_pairing. Qed.
+
+Theorem C05_ultranest_pairing :
+  forall (V : Type) (prior L : list V -> V) (nonneg : V -> Prop) (paths : list path) (rows : list (list V))
+         (logl weights : list V) (out : list (sample V)),
+    rows_ok V paths rows ->
+    logl_contract L rows logl ->
+    Forall nonneg weights ->
+    ultranest_convert V prior paths rows logl weights = Some out ->
+    Forall (faithful V prior L nonneg) out /\ (length weights = length rows -> map (s_vec V) out = rows).
+Proof. exact ultranest_pairing. Qed.
+
+(* ---------- maximum-likelihood searches ---------- *)
+Theorem C05_drawer_pairing :
+  forall (V : Type) (add sub : V -> V -> V) (one : V) (prior L : list V -> V) (nonneg : V -> Prop),
+    (forall a b : V, sub (add a b) b = a) -> nonneg one ->
+    forall (paths : list path) (rows : list (list V)) (post : list V) (out : list (sample V)),
+      rows_ok V paths rows ->
+      post_contract add prior L rows post ->
+      drawer_convert V sub one prior paths rows post = Some out ->
+      Forall (faithful V prior L nonneg) out /\ map (s_vec V) out = rows.
+Proof. exact drawer_pairing. Qed.
+
+Theorem C05_bfgs_pairing :
+  forall (V : Type) (add sub : V -> V -> V) (one : V) (prior L : list V -> V) (nonneg : V -> Prop),
+    (forall a b : V, sub (add a b) b = a) -> nonneg one ->
+    forall (paths : list path) (x : list V) (post : V) (out : list (sample V)),
+      length x = length paths ->
+      post = add (L x) (prior x) ->
+      bfgs_convert V sub one prior paths x post = Some out ->
+      Forall (faithful V prior L nonneg) out /\ map (s_vec V) out = [x].
+Proof. exact bfgs_pairing. Qed.
+
+Theorem C05_bfgs_history_pairing :
+  forall (V : Type) (one : V) (prior L : list V -> V) (nonneg : V -> Prop),
+    nonneg one ->
+    forall (paths : list path) (hist : list (list V)) (hist_ll : list V) (out : list (sample V)),
+      rows_ok V paths hist ->
+      logl_contract L hist hist_ll ->
+      bfgs_vis_convert V one prior paths hist hist_ll = Some out ->
+      Forall (faithful V prior L nonneg) out /\ map (s_vec V) out = hist.
+Proof. exact bfgs_vis_pairing. Qed.
+
+(* ---------- emcee: the full statement, for the repaired and for the pinned log-prob call ---------- *)
+(* emcee_pairing_statement aligned := for every exact arithmetic, chain, log-prob array satisfying
+   the sampler contract, discard and thin: every sample of emcee_convert aligned ... is faithful *)
+Theorem C05_emcee_pairing_fixed : emcee_pairing_statement true.
+Proof. exact emcee_fixed_holds. Qed.
+
+Theorem C05_emcee_pairing_refuted : ~ emcee_pairing_statement false.
+Proof. exact emcee_pinned_refuted. Qed.
+
+Theorem C05_emcee_fixed_complete :
+  forall (V : Type) (add sub : V -> V -> V) (one : V) (prior L : list V -> V) (nonneg : V -> Prop),
+    (forall a b : V, sub (add a b) b = a) -> nonneg one ->
+    forall (paths : list path) (chain : list (list (list V))) (logp : list (list V)) (discard thin : nat)
+           (out : list (sample V)),
+      Forall (rows_ok V paths) chain ->
+      mcmc_contract add prior L chain logp ->
+      emcee_convert V sub one prior true paths chain logp discard thin = Some out ->
+      Forall (faithful V prior L nonneg) out /\
+      map (s_vec V) out = concat (every_from (discard + thin - 1) thin chain).
+Proof. exact emcee_aligned_pairing. Qed.
+
+(* pinned call: priors, weights and rows are right (only the log-likelihood is mispaired) *)
+Theorem C05_emcee_pairing_partial :
+  forall (V : Type) (sub : V -> V -> V) (one : V) (prior : list V -> V) (paths : list path)
+         (chain : list (list (list V))) (logp : list (list V)) (discard thin : nat) (out : list (sample V)),
+    Forall (rows_ok V paths) chain ->
+    emcee_convert V sub one prior false paths chain logp discard thin = Some out ->
+    Forall (half_faithful V prior one) out /\
+    (exists k : nat, map (s_vec V) out = firstn k (concat (every_from (discard + thin - 1) thin chain))).
+Proof. exact emcee_pinned_partial. Qed.
+
+(* ---------- zeus ---------- *)
+Theorem C05_zeus_pairing_fixed : zeus_pairing_statement true.
+Proof. exact zeus_fixed_holds. Qed.
+
+Theorem C05_zeus_pairing_refuted : ~ zeus_pairing_statement false.
+Proof. exact zeus_pinned_refuted. Qed.
+
+(* guard excluding the defect: nothing discarded, no thinning *)
+Theorem C05_zeus_pairing_partial :
+  forall (V : Type) (add sub : V -> V -> V) (one : V) (prior L : list V -> V) (nonneg : V -> Prop),
+    (forall a b : V, sub (add a b) b = a) -> nonneg one ->
+    forall (paths : list path) (chain : list (list (list V))) (logp : list (list V)) (out : list (sample V)),
+      Forall (rows_ok V paths) chain ->
+      mcmc_contract add prior L chain logp ->
+      zeus_convert V sub one prior false paths chain logp 0 1 = Some out ->
+      Forall (faithful V prior L nonneg) out /\ map (s_vec V) out = concat chain.
+Proof. exact zeus_pinned_no_burn_in. Qed.
+
+(* ---------- pyswarms ---------- *)
+Theorem C05_pyswarms_pairing_refuted : ~ pyswarms_pairing_statement.
+Proof. exact pyswarms_refuted. Qed.
+
+(* guard excluding the defect: a swarm of one particle whose best-cost history is that particle's cost *)
+Theorem C05_pyswarms_pairing_partial :
+  forall (V : Type) (add sub : V -> V -> V) (neghalf : V -> V) (one : V) (prior L : list V -> V) (nonneg : V -> Prop),
+    (forall a b : V, sub (add a b) b = a) -> nonneg one ->
+    forall (paths : list path) (xs : list (list V)) (cost : list V) (out : list (sample V)),
+      rows_ok V paths xs ->
+      Forall2 (fun x c => neghalf c = add (L x) (prior x)) xs cost ->
+      pyswarms_convert V sub neghalf one prior paths (map (fun x => [x]) xs) cost = Some out ->
+      Forall (faithful V prior L nonneg) out /\ map (s_vec V) out = xs.
+Proof. exact pyswarms_single_particle. Qed.
+
+(* ---------- best fit ---------- *)
+Theorem C05_best_is_a_sample :
+  forall (V : Type) (ltb : V -> V -> bool) (l : list (sample V)) (b : sample V),
+    max_ll_sample V ltb l = Some b -> In b l.
+Proof. exact max_sample_in. Qed.
+
+Theorem C05_best_is_max :
+  forall (V : Type) (ltb : V -> V -> bool),
+    (forall a : V, ltb a a = false) ->
+    (forall a b c : V, ltb a b = true -> ltb b c = true -> ltb a c = true) ->
+    forall (l : list (sample V)) (b : sample V),
+      max_ll_sample V ltb l = Some b ->
+      forall s : sample V, In s l -> ltb (s_ll b) (s_ll s) = false.
+Proof. exact max_sample_max. Qed.
+
+Theorem C05_best_exists :
+  forall (V : Type) (ltb : V -> V -> bool) (l : list (sample V)),
+    l <> [] -> exists b : sample V, max_ll_sample V ltb l = Some b.
+Proof. exact max_sample_some. Qed.
+
+Theorem C05_best_is_first_maximum :
+  forall (V : Type) (ltb : V -> V -> bool),
+    (forall a b c : V, ltb a b = true -> ltb b c = true -> ltb a c = true) ->
+    (forall a b c : V, ltb a c = true -> ltb a b = true \/ ltb b c = true) ->
+    forall (l : list (sample V)) (i : nat) (b : sample V),
+      max_ll_index V ltb l = Some i ->
+      max_ll_sample V ltb l = Some b ->
+      forall (j : nat) (x : sample V), j < i -> nth_error l j = Some x -> ltb (s_ll x) (s_ll b) = true.
+Proof. exact max_index_first. Qed.
+
+Theorem C05_best_index :
+  forall (V : Type) (ltb : V -> V -> bool) (l : list (sample V)) (i : nat),
+    max_ll_index V ltb l = Some i -> nth_error l i = max_ll_sample V ltb l.
+Proof. exact max_index_sample. Qed.
+
+(* ---------- columns keyed by unique prior path in id order; the best-fit vector ---------- *)
+Theorem C05_columns_in_id_order :
+  forall pp : list (path * nat), StronglySorted lt (column_ids pp).
+Proof. exact column_ids_sorted. Qed.
+
+Theorem C05_columns_complete :
+  forall (pp : list (path * nat)) (k : nat), In k (column_ids pp) <-> In k (map snd pp).
+Proof. exact column_ids_complete. Qed.
+
+Theorem C05_columns_aligned :
+  forall pp : list (path * nat),
+    Forall2 (fun (p : path) (g : list path) => In p g) (unique_prior_paths pp) (all_paths pp).
+Proof. exact paths_aligned. Qed.
+
+(* the vector handed to instance_from_vector for any sample built by from_lists (in particular
+   the maximising one) is that sample's own parameter row, which is a row of the sampler *)
+Theorem C05_best_vector :
+  forall (V : Type) (pp : list (path * nat)) (rows : list (list V)) (lls lps ws : list V) (s : sample V),
+    NoDup (map fst pp) ->
+    rows_ok V (unique_prior_paths pp) rows ->
+    In s (from_lists V (unique_prior_paths pp) rows lls lps ws) ->
+    vector_for V (all_paths pp) (s_kw s) = Some (s_vec V s) /\ In (s_vec V s) rows.
+Proof. exact best_vector_is_row. Qed.
+
+Print Assumptions C05_from_lists_pairing.
+Print Assumptions C05_dynesty_pairing.
+Print Assumptions C05_emcee_pairing_fixed.
+Print Assumptions C05_emcee_pairing_refuted.
+Print Assumptions C05_pyswarms_pairing_refuted.
+Print Assumptions C05_best_is_first_maximum.
+Print Assumptions C05_best_vector.
